@@ -1,4 +1,95 @@
-(* PC20.v placeholder while the proofs are being built *)
-From SV Require Import IrvVis.
-Theorem C20_placeholder : True. Proof. exact I. Qed.
-Print Assumptions C20_placeholder.
+(* PC20.v — property C20: the pruned elimination tree shows an unpruned leaf iff the assertions are insufficient;
+   every pruned node is tagged with exactly the assertions that contradict it.
+   Model: IrvVis.v (buildRemainingTreeAsLists / treeListToTuple / parseAssertions).  Specification of "contradicts"
+   (IrvVis_proofs.v, top): an elimination order is a list, first eliminated first, alternative winner last;
+     NEB tuple (l, w, _)  is contradicted by pi  iff  w occurs before l in pi;
+     NEN tuple (x, E, _)  is contradicted by pi  iff  the candidates before x in pi are exactly the set E. *)
+From Coq Require Import ZArith List Bool Permutation.
+From SV Require Import IrvVis IrvVis_proofs.
+Import ListNotations.
+Open Scope Z_scope.
+
+(* For every duplicate-free set S of other candidates, alternative winner c, and ARBITRARY lists of NEB and NEN tuples
+   (redundant, inconsistent, naming unknown candidates ...): the tree has an unpruned leaf iff some permutation of S
+   followed by c is an elimination order contradicted by no assertion. *)
+Theorem C20_unpruned_iff : forall (WO : list neb) (IRV : list nen) (c : Z) (S : list Z),
+  NoDup S ->
+  (has_unpruned_leaf (build_tree WO IRV c S) = true <->
+   exists pi, Permutation pi S /\ uncontradicted WO IRV (pi ++ [c])).
+Proof. exact unpruned_iff. Qed.
+Print Assumptions C20_unpruned_iff.
+
+Example C20_unpruned_iff_nonvacuous :
+  NoDup [2; 3; 4] /\
+  has_unpruned_leaf (build_tree [(2, 3, true)] [(3, [], false); (4, [2; 3], true)] 1 [2; 3; 4]) = true /\
+  has_unpruned_leaf (build_tree [(2, 3, true); (1, 4, false)] [(3, [], false)] 1 [2; 3; 4]) = false.
+Proof. repeat split; try reflexivity. repeat constructor; simpl; intuition discriminate. Qed.
+
+(* Every leaf of the tree (pruned node or unpruned leaf), found below the path `suf` (nearest ancestor first, root c
+   last), with Sx the candidates not yet placed: an NEB / NEN assertion's (list.index, proved) pair is among the
+   node's tags iff the assertion contradicts — at the elimination of the node's own candidate x — every elimination
+   order through the node; every tag is of that form and its number points at (a tuple equal to) that assertion;
+   a leaf without tags only occurs at full depth. *)
+Theorem C20_tags_exact : forall (WO : list neb) (IRV : list nen) (c : Z) (S : list Z),
+  NoDup (c :: S) ->
+  forall x nt it suf, In (Leaf x nt it, suf) (nodes (build_tree WO IRV c S) []) ->
+  exists Sx,
+    Permutation (Sx ++ x :: suf) (S ++ [c]) /\ (exists pre, x :: suf = pre ++ [c]) /\
+    (forall a, In a WO ->
+       (In (index_of neb_eqb a WO, neb_proved a) nt <-> forall sg, Permutation sg Sx -> neb_contra_at a x (sg ++ x :: suf))) /\
+    (forall tg, In tg nt -> exists a, In a WO /\ tg = (index_of neb_eqb a WO, neb_proved a) /\ nth_error WO (fst tg) = Some a) /\
+    (forall a, In a IRV ->
+       (In (index_of nen_eqb a IRV, nen_proved a) it <-> forall sg, Permutation sg Sx -> nen_contra_at a x (sg ++ x :: suf))) /\
+    (forall tg, In tg it -> exists a b, In a IRV /\ tg = (index_of nen_eqb a IRV, nen_proved a) /\
+                                       nth_error IRV (fst tg) = Some b /\ nen_eqb b a = true) /\
+    (nt = [] /\ it = [] -> Sx = []).
+Proof. exact tags_exact. Qed.
+Print Assumptions C20_tags_exact.
+
+(* The same with plain "contradicts every order through the node" (no reference to where the contradiction occurs):
+   exact for NEB tags always, and for NEN tags whenever the number of candidates still to be placed is not 1. *)
+Theorem C20_tags_exact_orders : forall (WO : list neb) (IRV : list nen) (c : Z) (S : list Z),
+  NoDup (c :: S) ->
+  forall x nt it suf, In (Leaf x nt it, suf) (nodes (build_tree WO IRV c S) []) ->
+  exists Sx,
+    Permutation (Sx ++ x :: suf) (S ++ [c]) /\
+    (forall a, In a WO ->
+       (In (index_of neb_eqb a WO, neb_proved a) nt <-> forall sg, Permutation sg Sx -> neb_contra a (sg ++ x :: suf))) /\
+    (length Sx <> 1%nat -> forall a, In a IRV ->
+       (In (index_of nen_eqb a IRV, nen_proved a) it <-> forall sg, Permutation sg Sx -> nen_contra a (sg ++ x :: suf))).
+Proof. exact tags_exact_orders. Qed.
+Print Assumptions C20_tags_exact_orders.
+
+Example C20_tags_nonvacuous :
+  NoDup [1; 2; 3; 4] /\
+  In (Leaf 2 [(0%nat, true); (0%nat, true)] [(1%nat, false)], [4; 1])
+     (nodes (build_tree [(2, 3, true); (2, 3, true); (9, 9, false)] [(3, [], false); (2, [3], false)] 1 [2; 3; 4]) []).
+Proof. split; [repeat constructor; simpl; intuition discriminate|]. vm_compute. intuition. Qed.
+
+(* why the side condition on NEN: with one candidate y left below a pruned node, NEN (y, {}) contradicts the only order
+   through the node, yet it is the child's tag, not the node's *)
+Example C20_tags_single_candidate_below :
+  build_tree [(1, 2, true)] [(2, [], false)] 1 [2] = Leaf 1 [(0%nat, true)] [] /\
+  nen_contra (2, [], false) ([2] ++ [1]).
+Proof. split; [reflexivity|]. simpl. exists [], [1]. split; [reflexivity|]. intro y. tauto. Qed.
+
+(* parseAssertions: the NEB and NEN tuples are, in order, what each assertion's JSON says (classify / parse_spec in
+   IrvVis_proofs.v: assertion_json entry at the same index decides; WINNER_ONLY -> (loser, winner, proved);
+   IRV_ELIMINATION -> (winner, set(already_eliminated), proved); other type -> nothing; no entry or no type ->
+   (loser, winner, proved) from the assertion itself), for the selected contest in either dialect. *)
+Theorem C20_parse : forall (f : afile) (manifest : list (Z * Z)) (contest_id : option Z),
+  let '(rla, au) := selected f contest_id in
+  let ajson := if rla then match au_json au with Some j => j | None => [] end else [] in
+  let '(_, _, WO, IRV) := parse_assertions f manifest contest_id in
+  (WO, IRV) = parse_spec rla ajson 0 (au_assertions au).
+Proof. exact parse_assertions_tuples. Qed.
+Print Assumptions C20_parse.
+
+Example C20_parse_nonvacuous :
+  let au := mkAudit 15 [15; 16; 17] []
+                    [mkAraw 15 16 (PBool true); mkAraw 15 17 PAbsent; mkAraw 16 17 (PBool false); mkAraw 1 2 (PBool true)]
+                    (Some [mkAdetail (Some TWinnerOnly) 15 16 []; mkAdetail (Some TIrvElim) 15 17 [16];
+                           mkAdetail (Some TOtherType) 0 0 []]) in
+  parse_assertions (RLALog [(339, au)]) [(15, 1); (16, 2)] None
+  = ((15, 1), [(16, 2); (17, -1)], [(16, 15, true); (2, 1, true)], [(15, [16], false)]).
+Proof. reflexivity. Qed.
